@@ -596,20 +596,24 @@ func (c *VirtualTable) Insert(ctx context.Context, values map[int]interface{}) (
 	var old *v1proto.Row
 	var new v1proto.Row
 	var ot time.Time
-	// An INTEGER and a REAL of the same value are one key (they compare equal)
-	// but hash to different tree layers. If the row was stored under the other
-	// numeric type (or as the zero of the other sign), address that entry: a
-	// second, equal key would break the tree.
-	for _, twin := range numericTwins(NewKey(key)) {
-		var trow *v1proto.Row
-		var tt time.Time
-		tok, err := getRow(ctx, c, twin, &trow, &tt)
+	// An INTEGER and a REAL of the same value (and the two zeros) are one key:
+	// they compare equal but hash to different tree layers. If an entry with
+	// an equal key is stored, address it by the key it is stored under: a
+	// second, equal key on another layer would break the tree. The entry is
+	// found by order (a cursor seek), not by a lookup of each representation,
+	// which can hit an equal key of another representation on its way down.
+	if nk := NewKey(key); nk.Type == v1proto.Type_INT || nk.Type == v1proto.Type_REAL {
+		cur, err := c.Tree.Root.Cursor(ctx)
 		if err != nil {
-			return 0, fmt.Errorf("get: %w", err)
+			return 0, fmt.Errorf("cursor: %w", err)
 		}
-		if tok {
-			key = twin.Value()
-			break
+		if c.Tree.Root.Size() > 0 {
+			if err := cur.Ceil(ctx, nk); err != nil {
+				return 0, fmt.Errorf("cursor: %w", err)
+			}
+			if sk, _, found := cur.Get(); found && sk.(*Key).Order(nk) == 0 {
+				key = sk.(*Key).Value()
+			}
 		}
 	}
 	ok, err := getRow(ctx, c, NewKey(key), &old, &ot)
